@@ -1117,7 +1117,7 @@ m('C02','m-bit-lost',C,
   '\t\t\tdata[offset] = (data[offset] + uint8(delta)) & 0x7F','\t\t\tdata[offset] = data[offset] + uint8(delta)',
   'R2.5','the rewritten picture-id octet keeps its M bit','7-bit id overflows into the M flag')
 m('C01','identity-with-intervals',PM,
-  '\tif m.delta == 0 && m.entries == nil {\n\t\tif compare(m.next, seqno) <= 0 ||','\tif m.delta == 0 && m.pidDelta == 0 {\n\t\tif compare(m.next, seqno) <= 0 ||',
+  '\tif m.delta == 0 && m.entries == nil {\n\t\tif !m.started || compare(m.next, seqno) <= 0 ||','\tif m.delta == 0 && m.pidDelta == 0 {\n\t\tif !m.started || compare(m.next, seqno) <= 0 ||',
   'R1.3','Map: successful returns','late packets bypass the interval table when the offset wrapped to 0')
 m('C01','rewrite-in-place',R,
   '\tn := copy(buf2, buf)\n\terr = codecs.RewritePacket(codec, buf2[:n], setMarker, newseqno, -piddelta)\n\tif err != nil {\n\t\treturn 0, err\n\t}\n\treturn down.write(buf2[:n])',
@@ -1195,3 +1195,10 @@ m('C07','benign-delayed-early-return',R,
   '\t\tup.mu.Lock()\n\t\tpushed := up.pushed\n\t\tup.pushed = true\n\t\tup.mu.Unlock()\n\t\tif !pushed {\n\t\t\tpushConnNow(up, g, cs)\n\t\t}',
   '\t\tup.mu.Lock()\n\t\tif up.pushed {\n\t\t\tup.mu.Unlock()\n\t\t\treturn\n\t\t}\n\t\tup.pushed = true\n\t\tup.mu.Unlock()\n\t\tpushConnNow(up, g, cs)',
   '','','early return on the flag',benign=True)
+# ---------------- C04 R4.8 (F-T) ----------------
+m('C04','first-packet-not-recorded',PM,
+  '\t\tif !m.started || compare(m.next, seqno) <= 0 ||','\t\tif compare(m.next, seqno) <= 0 ||',
+  'R4.8','Map: the first packet sets next','a stream starting at 57344..65534 never sets next: nothing can be withheld until the numbers wrap',quick=True)
+m('C04','benign-started-after-next',PM,
+  '\t\t\tm.started = true\n\t\t\tm.next = seqno + 1\n\t\t\tm.nextPid = pid\n\t\t}\n\t\treturn true, seqno, 0','\t\t\tm.next = seqno + 1\n\t\t\tm.nextPid = pid\n\t\t\tm.started = true\n\t\t}\n\t\treturn true, seqno, 0',
+  '','','the flag is set after the number',benign=True)
